@@ -4,8 +4,10 @@ P=$1; shift
 cd /repo && git apply --check "$P" || { echo "patch does not apply"; exit 2; }
 git apply "$P"
 cd /verif
+rm -rf /var/tmp/evidence-keep && cp -r /verif/evidence /var/tmp/evidence-keep
 for c in "$@"; do
   timeout 1500 python3 tools/check.py $c 2>/dev/null | grep -v "^KNOWN-FINDING" | cut -c1-200
   echo "[$c exit=$?]"
 done
+rm -rf /verif/evidence && mv /var/tmp/evidence-keep /verif/evidence
 git -C /repo checkout -- . && git -C /repo status --short | grep -v _build
